@@ -30,6 +30,9 @@ def scalar_values(tier='quick'):
     for zn, args in (('UTC', (2020, 1, 2, 3, 4, 5)), ('Europe/Paris', (2020, 7, 1, 12, 0, 0, 250000)), ('America/New_York', (2021, 11, 7, 1, 30, 0)),
                      ('Australia/Adelaide', (2020, 1, 15, 12, 0, 0)), ('Asia/Kolkata', (1999, 12, 31, 23, 59, 59))):
         out.append(('datetime', pytz.timezone(zn).localize(datetime.datetime(*args))))
+    # the repeated hour at the end of DST, on its first pass (still on the DST offset)
+    out.append(('datetime', pytz.timezone('America/New_York').localize(datetime.datetime(2021, 11, 7, 1, 30, 0), is_dst=True)))
+    out.append(('datetime', pytz.timezone('Europe/Berlin').localize(datetime.datetime(2020, 10, 25, 2, 15, 0, 250000), is_dst=True)))
     out += [('coord', Coordinate(0.0, 0.0)), ('coord', Coordinate(-37.123456, 144.987654)), ('coord', Coordinate(90.0, -180.0)), ('coord', Coordinate(1, 2))]
     return out
 
